@@ -137,6 +137,38 @@ def run(tier, seed, replay=None):
                     queries.append((snap, [tuple(C.fr(fl(x)) for x in data[0])], None, nm, form))
                 else:
                     V.failure({'what': 'exception on in-domain %s evaluation: %s' % (form, nm), 'obj': O.spec_json(snap), 'msg': str(e)})
+    # ---- calling forms as wholes (Model/EvalForms.v): lists of any length per direction (also empty), parameters inside and
+    # outside the domain, unequal lengths with tensor=False -- values in C order or the exception class
+    form_cases = []
+    for spec, forced in specs[:max(40, len(specs) // 3)]:
+        if forced:
+            break
+        o = O.make_impl(spec)
+        snap = O.snapshot(o)
+        pd = len(spec['bases'])
+        dpts = [O.dir_points(rng, b, tol) for b in spec['bases']]
+        for pointwise in ([False, True] if pd > 1 else [False]):
+            mode = rng.choice(['in', 'in', 'any', 'empty', 'unequal'])
+            lens = [rng.randint(1, 3) for _ in range(pd)]
+            if pointwise and mode != 'unequal':
+                lens = [lens[0]] * pd
+            if mode == 'empty':
+                lens[rng.randrange(pd)] = 0
+            lists = []
+            for d_, ln in zip(dpts, lens):
+                pool = [q for q in d_ if q[1] not in ('out', 'fuzz')] if mode != 'any' else [q for q in d_ if q[1] != 'fuzz']
+                lists.append([float(rng.choice(pool)[0]) for _ in range(ln)])
+            try:
+                r_ = o.evaluate(*[list(l_) for l_ in lists], tensor=False) if pointwise else o.evaluate(*[list(l_) for l_ in lists])
+                r_ = np.asarray(r_, dtype=float)
+                got = ('ok', r_.reshape(-1, spec['dim']) if r_.size else np.zeros((0, spec['dim'])), r_.shape)
+            except Exception as e:  # noqa
+                got = ('err', err_name(e), None)
+            dist['form']['lists:' + ('pointwise' if pointwise else 'grid') + ':' + mode] = dist['form'].get('lists:' + ('pointwise' if pointwise else 'grid') + ':' + mode, 0) + 1
+            form_cases.append((snap, pointwise, [[C.fr(x) for x in l_] for l_ in lists], got, mode))
+    flines = ['%s %s %s %d %s' % ('eval_pointwise' if pw else 'eval_grid', C.qs(tol), O.obj_tokens(snap), len(ls), ' '.join(C.qlist(l_) for l_ in ls))
+              for snap, pw, ls, got, mode in form_cases]
+    fouts = C.run_model(flines) if flines else []
     # L1: model
     lines = []
     for snap, tuples, flat, err, form in queries:
@@ -188,6 +220,27 @@ def run(tier, seed, replay=None):
                     if not all(C.close(flat[ti][j], vals[j], sc) for j in range(len(vals))) and corr_bad.open():
                         corr_bad += {'what': 'L1: evaluate differs from model', 'obj': O.spec_json(snap), 'params': [str(x) for x in tuples[ti]],
                                     'impl': [float(x) for x in flat[ti]], 'model': [str(v) for v in vals]}
+    for tk, (snap, pw, ls, got, mode) in zip(fouts, form_cases):
+        evals += 1
+        case = {'obj': O.spec_json(snap), 'lists': [[str(x) for x in l_] for l_ in ls], 'tensor': not pw, 'form': 'lists'}
+        if tk.word() == 'Err':
+            en = tk.word()
+            if got[0] != 'err' or got[1] != en:
+                # a mix of an empty list and broadcasting is numpy territory: only the class of outcome is compared
+                corr_bad += dict(case, what='L1: model raises %s for these parameter lists, implementation %s' % (en, got[1] if got[0] == 'err' else 'returns values'))
+        else:
+            pts = tk.list(tk.qlist)
+            if got[0] == 'err':
+                corr_bad += dict(case, what='L1: implementation raises %s for these parameter lists, model returns %d points' % (got[1], len(pts)))
+            elif len(pts) != len(got[1]):
+                corr_bad += dict(case, what='L1: %d points returned, model %d' % (len(got[1]), len(pts)))
+            else:
+                sc = max([1.0] + [abs(float(v)) for p_ in pts for v in p_])
+                if not all(C.close(got[1][i_][j_], p_[j_], sc) for i_, p_ in enumerate(pts) for j_ in range(len(p_))):
+                    corr_bad += dict(case, what='L1: values of the %s form differ from the model (C order)' % ('pointwise' if pw else 'grid'))
+                want_shape = ((len(ls[0]),) if pw else tuple(len(l_) for l_ in ls)) + (snap['dim'],)
+                if all(len(l_) > 0 for l_ in ls) and tuple(got[2]) != want_shape:
+                    V.failure(dict(case, what='L2: result shape %s, expected %s' % (list(got[2]), list(want_shape))))
     for (qi, ti, li) in l2map:
         snap, tuples, flat, err, form = queries[qi]
         case = {'obj': O.spec_json(snap), 'params': [str(x) for x in tuples[ti]], 'params_hex': [float(x).hex() for x in tuples[ti]], 'form': form}
